@@ -23,4 +23,32 @@ class C06(CmpProp):
                 if p[0] != 'ITEM' and not (p[0] == 'IMPL' and 'hash : : Hash' not in p[1])]
 
 
+def _c06_literals():
+    """explicit `bound(..)` lists (on the field, a variant, the trait entry, the list) shape the where-clause - never WHAT is fed"""
+    out = []
+    # (declaration with the bound, the same without it, a value)
+    S1, S2, S3 = 'pub struct X<T>(%s pub T, pub u16);', 'pub enum X<T> { %s A(T, u16), B(u8) }', 'pub struct X<T> { pub a: T, %s pub b: u16 }'
+    pairs = [(S1 % a, S1 % '', 'X(1u8, 2u16)') for a in ('#[hash(bound(T: Hash))]', '#[eq(bound(T: Hash))]', '#[ord(bound(T: Hash))]',
+                                                      '#[derive_ex(Hash(bound(T: Hash)))]', '#[derive_ex(Hash, bound(T: Hash))]')] + \
+            [(S2 % a, S2 % '', 'X::A(1u8, 2u16)') for a in ('#[hash(bound(T: Hash))]', '#[derive_ex(Hash(bound(T: Hash)))]', '#[derive_ex(Hash, bound(T: Hash))]')] + \
+            [(S3 % '#[hash(key = $ + 1, bound(T: Hash))]', S3 % '#[hash(key = $ + 1)]', 'X { a: 1u8, b: 2u16 }'),
+             (S3 % '#[eq(key = $ + 1, bound(T: Hash))]', S3 % '#[eq(key = $ + 1)]', 'X { a: 1u8, b: 2u16 }'),
+             (S3 % '#[hash(bound())]', S3 % '', 'X { a: 1u8, b: 2u16 }')]
+    lists = ['Hash', 'Hash(bound(T: Hash))', 'Hash, bound(T: Hash)', 'Hash(bound(T: Hash, ..))']
+    for with_, without, val in pairs:
+        for mi, head in enumerate(('#[::derive_ex::derive_ex(%s)]', '#[derive(::derive_ex::Ex)] #[derive_ex(%s)]')):
+            tl = 'Hash'
+            src = 'pub mod a { use super::*; %s\n%s }\npub mod b { use super::*; %s\n%s }\n' % (head % tl, with_, head % tl, without) + \
+                'pub fn run() { let (x, y) = (feed(&a::%s), feed(&b::%s)); println!("@ID@\\tfeed\\t{} {}", x == y, x.len() > 6); }' % (val, val)
+            out.append(((head % tl).replace('::derive_ex::', '') + ' ' + with_, src, [('feed', 'true true')]))
+    for li, tl in enumerate(lists[1:]):
+        decl, val = 'pub struct X<T>(pub T, pub u16);', 'X(1u8, 2u16)'
+        head = '#[::derive_ex::derive_ex(%s)]'
+        src = 'pub mod a { use super::*; %s\n%s }\npub mod b { use super::*; %s\n%s }\n' % (head % tl, decl, head % 'Hash', decl) + \
+            'pub fn run() { let (x, y) = (feed(&a::%s), feed(&b::%s)); println!("@ID@\\tfeed\\t{} {}", x == y, x.len() > 6); }' % (val, val)
+        out.append((('#[derive_ex(%s)] ' % tl) + decl, src, [('feed', 'true true')]))
+    return out
+
+
+C06.literal_programs = lambda self: _c06_literals()
 PROP = C06()
